@@ -22,6 +22,13 @@ Definition r_views (s : state) : list (list N) :=
     (let bins := view_garbage s garb_all in
      N.of_nat (length bins) :: flat_map (fun b : cid * list oid => fst b :: N.of_nat (length (snd b)) :: snd b) bins) ].
 
+(* own digest (61-bit mask: N.land is much cheaper than a modulus under vm_compute) *)
+Definition r_mask : N := 2305843009213693951.  (* 2^61 - 1 *)
+Definition r_hash (l : list N) : N :=
+  fold_left (fun acc x => N.land (acc * 1000003 + x + 1) r_mask) l 7.
+Definition r_digest (st : list N) (views : list (list N)) : N :=
+  r_hash (st ++ flat_map (fun l => N.of_nat (length l) :: l) views).
+
 Record permc := mkPerm { p_ord : list nat; p_ok : bool; p_digest : N }.
 Record case := mkCase { k_e : N; k_q : N; k_blobs : list blob; k_perms : list permc }.
 
@@ -32,7 +39,7 @@ Definition model_after (k : case) (ord : list nat) : state * bool :=
   let '(s, ok) := resync (k_e k) (apply_order (k_blobs k) ord) in (at_epoch s (k_q k), ok).
 
 Definition model_digest (k : case) (ord : list nat) : N * bool :=
-  let '(s, ok) := model_after k ord in (digest (enc_state s) (r_views s), ok).
+  let '(s, ok) := model_after k ord in (r_digest (enc_state s) (r_views s), ok).
 
 Definition code (i j : nat) : N := N.of_nat i * 100000 + N.of_nat j.
 
